@@ -30,6 +30,8 @@ structure Lib where
   sockDecode : Bytes → Text
   /-- htpasswd hash comparison: `hashOk pwhash password` -/
   hashOk : Text → Text → Bool
+  /-- the hash comparison raises instead of answering (e.g. `bcrypt.checkpw` with a password longer than 72 bytes) -/
+  hashRaises : Text → Text → Bool := fun _ _ => false
 
 def lookupLower (t : List (Nat × Nat)) (c : Nat) : Nat :=
   match t with
@@ -87,6 +89,7 @@ inductive Validator where
   | any
   | single (u p : Text)
   | table (entries : List (Text × Text))      -- user ↦ pwhash, in file order
+  | raising (bad : List (Text × Text)) (inner : Validator)   -- a validator whose __call__ raises on the listed pairs
   deriving Repr
 
 /-- dict semantics: a later line for the same user replaces the earlier one -/
@@ -97,13 +100,24 @@ def tableLookup : List (Text × Text) → Text → Option Text
     | some h' => some h'
     | none => if u = u' then some h else none
 
-def Validator.accepts (L : Lib) : Validator → Text → Text → Bool
-  | .any, _, _ => true
-  | .single u p, u', p' => u == u' && p == p'
+/-- `validator(username, password)`: `.error ()` = the call raises -/
+def Validator.check (L : Lib) : Validator → Text → Text → Except Unit Bool
+  | .any, _, _ => .ok true
+  | .single u p, u', p' => .ok (u == u' && p == p')
   | .table es, u, p =>
     match tableLookup es u with
-    | none => false
-    | some h => L.hashOk (h.takeWhile (· ≠ 58)) p      -- pwhash.split(":", 1)[0]
+    | none => .ok false
+    | some h =>
+      let h0 := h.takeWhile (· ≠ 58)                     -- pwhash.split(":", 1)[0]
+      if L.hashRaises h0 p then .error () else .ok (L.hashOk h0 p)
+  | .raising bad inner, u, p => if bad.contains (u, p) then .error () else inner.check L u p
+
+/-- what the hooks make of the validator's answer: `authenticate_http` wraps the call in `try … except Exception: pass`
+    (is_valid stays False), and an exception escaping `socks5_auth` leaves `data.valid` False — a raising validator denies -/
+def Validator.accepts (L : Lib) (v : Validator) (u p : Text) : Bool :=
+  match v.check L u p with
+  | .ok b => b
+  | .error _ => false
 
 /-! ### header fields -/
 
